@@ -374,17 +374,48 @@ type dispatchOutcome struct {
 func tabulateDispatch(c *core.Ctx, m *jsonModel, f *ssa.Function) [256]dispatchOutcome {
 	var out [256]dispatchOutcome
 	// the dispatch load: first load of b[idx] in f whose referrers are comparisons with constants
-	var load *ssa.UnOp
-	for _, b := range f.Blocks {
-		for _, in := range b.Instrs {
-			u, ok := in.(*ssa.UnOp)
-			if !ok || u.Op != token.MUL || load != nil {
+	findLoad := func(h *ssa.Function) *ssa.UnOp {
+		for _, b := range h.Blocks {
+			for _, in := range b.Instrs {
+				u, ok := in.(*ssa.UnOp)
+				if !ok || u.Op != token.MUL {
+					continue
+				}
+				if ia, ok := u.X.(*ssa.IndexAddr); ok && core.IsByteSlice(ia.X.Type()) {
+					return u
+				}
+			}
+		}
+		return nil
+	}
+	load := findLoad(f)
+	tokIdx := -1
+	if load == nil {
+		// the dispatch may sit in a wrapper of the family that f calls; the token is then the wrapper result that f
+		// records in the scanner state
+		for _, ci := range core.Calls(f) {
+			call, ok := ci.(*ssa.Call)
+			if !ok || load != nil {
 				continue
 			}
-			ia, ok := u.X.(*ssa.IndexAddr)
-			if ok && core.IsByteSlice(ia.X.Type()) {
-				load = u
+			w := call.Call.StaticCallee()
+			if w == nil || !m.wrap[w] || findLoad(w) == nil {
+				continue
 			}
+			for _, ref := range *call.Referrers() {
+				ex, ok := ref.(*ssa.Extract)
+				if !ok {
+					continue
+				}
+				for _, r2 := range *ex.Referrers() {
+					if st, ok := r2.(*ssa.Store); ok && st.Val == ssa.Value(ex) {
+						if fa, ok := st.Addr.(*ssa.FieldAddr); ok && m.isState(fa.X.Type()) {
+							tokIdx = ex.Index
+						}
+					}
+				}
+			}
+			load = findLoad(w)
 		}
 	}
 	if load == nil {
@@ -420,6 +451,16 @@ func tabulateDispatch(c *core.Ctx, m *jsonModel, f *ssa.Function) [256]dispatchO
 				}
 			}
 			out[b] = dispatchOutcome{kind: "call", callee: callee}
+			if tokIdx >= 0 {
+				// wrapper form: the token is a constant result of the return that hands the scanner's count on
+				for blk := range core.Reach(x.Stop) {
+					if r := retOf(blk); r != nil && tokIdx < len(r.Results) && (blk == x.Stop || x.Stop.Dominates(blk)) {
+						if v, ok := core.ConstInt(r.Results[tokIdx]); ok && v > 0 {
+							out[b].token = v
+						}
+					}
+				}
+			}
 			// token: constant stored/phi'd after the call: look for an int phi downstream whose edge from the call's block is a constant
 			for _, sc := range x.Stop.Succs {
 				for _, in := range sc.Instrs {
